@@ -32,6 +32,11 @@ pub struct GenCfg {
     pub defaults: bool,
     /// allow literals that rely on spec input coercions (Int → Float/ID, item → list)
     pub coercions: bool,
+    /// objects may narrow interface field types covariantly (interface/union → one of its object types)
+    pub covariant_fields: bool,
+    /// custom scalars may carry `@nitrogql_ts_type(resolverInput:…, …)` (the directive the graphql-scalars plugin
+    /// emits; its definition is the nitrogql built-in that `nvh::real` adds like the CLI does)
+    pub ts_type_directive: bool,
 }
 
 impl Default for GenCfg {
@@ -47,6 +52,8 @@ impl Default for GenCfg {
             fragments: true,
             defaults: true,
             coercions: false,
+            covariant_fields: true,
+            ts_type_directive: false,
         }
     }
 }
@@ -233,6 +240,15 @@ impl VarPool {
     }
 }
 
+/// the same wrappers around another named type
+pub fn replace_named(t: &Ty, name: &str) -> Ty {
+    match t {
+        Ty::Named(_, p) => Ty::Named(name.to_string(), *p),
+        Ty::List(i, p) => Ty::List(Box::new(replace_named(i, name)), *p),
+        Ty::NonNull(i) => Ty::NonNull(Box::new(replace_named(i, name))),
+    }
+}
+
 pub fn strip_ty(t: &Ty) -> Ty {
     match t {
         Ty::Named(n, _) => Ty::named(n),
@@ -358,6 +374,12 @@ pub fn gen_schema(rng: &mut Rng, cfg: &GenCfg) -> SchemaModel {
     for s in &scalars {
         let mut t = TypeDef::new(TypeKind::Scalar, s);
         t.desc = gen_desc(rng, cfg);
+        if cfg.ts_type_directive && rng.coin() {
+            let texts = ["string", "number", "Date", "string | Date", "bigint"];
+            let mut arg = |n: &str, rng: &mut Rng| Arg::new(n, Val::Str(texts[rng.below(texts.len())].to_string(), P::default()));
+            let args = vec![arg("resolverInput", rng), arg("resolverOutput", rng), arg("operationInput", rng), arg("operationOutput", rng)];
+            t.dirs.push(Dir::new("nitrogql_ts_type", args));
+        }
         items.push(TsItem::TypeDef(t));
     }
     // enums
@@ -429,11 +451,13 @@ pub fn gen_schema(rng: &mut Rng, cfg: &GenCfg) -> SchemaModel {
 
     // output type names
     let n_ifaces = rng.below(3);
-    let iface_names: Vec<String> = ["Node", "Entity", "Named"].iter().take(n_ifaces).map(|s| s.to_string()).collect();
+    // a single leading underscore is a legal (non-reserved) name, e.g. Apollo Federation's `_Entity`, `_Service`
+    let us = rng.chance(1, 6);
+    let iface_names: Vec<String> = [if us { "_Node" } else { "Node" }, "Entity", "Named"].iter().take(n_ifaces).map(|s| s.to_string()).collect();
     let n_objs = 2 + rng.below(3);
-    let obj_names: Vec<String> = ["User", "Post", "Comment", "Tag"].iter().take(n_objs).map(|s| s.to_string()).collect();
+    let obj_names: Vec<String> = ["User", if us { "_Service" } else { "Post" }, "Comment", "Tag"].iter().take(n_objs).map(|s| s.to_string()).collect();
     let n_unions = rng.below(3);
-    let union_names: Vec<String> = ["SearchResult", "Owner"].iter().take(n_unions).map(|s| s.to_string()).collect();
+    let union_names: Vec<String> = [if us { "_Entity" } else { "SearchResult" }, "Owner"].iter().take(n_unions).map(|s| s.to_string()).collect();
     let explicit = cfg.explicit_schema && rng.chance(1, 3);
     let query = if explicit && rng.coin() { "RootQuery".to_string() } else { "Query".to_string() };
     let mutation = if rng.coin() { Some(if explicit && rng.coin() { "RootMutation".to_string() } else { "Mutation".to_string() }) } else { None };
@@ -561,6 +585,38 @@ pub fn gen_schema(rng: &mut Rng, cfg: &GenCfg) -> SchemaModel {
         ms.truncate(1 + rng.below(obj_names.len()));
         t.members = ms.into_iter().map(|m| (m, P::default())).collect();
         union_defs.push(t);
+    }
+    // covariant refinement: an object may narrow the named type of a field it implements for an interface to one
+    // of that type's possible object types (valid per IsValidImplementationFieldType; wrappers are kept so that
+    // response shapes stay mergeable)
+    if cfg.covariant_fields {
+        let snapshot: Vec<TypeDef> = obj_defs.clone();
+        let possible = |x: &str| -> Vec<String> {
+            if let Some(u) = union_defs.iter().find(|u| u.name == x) {
+                return u.members.iter().map(|m| m.0.clone()).collect();
+            }
+            if iface_defs.iter().any(|i| i.name == x) {
+                return snapshot.iter().filter(|o| o.implements.iter().any(|i| i.0 == x)).map(|o| o.name.clone()).collect();
+            }
+            vec![]
+        };
+        for o in obj_defs.iter_mut() {
+            if o.implements.is_empty() {
+                continue;
+            }
+            let iface_field_names: Vec<String> =
+                o.implements.iter().flat_map(|i| iface_defs.iter().find(|d| d.name == i.0).map(|d| d.fields.iter().map(|f| f.name.clone()).collect::<Vec<_>>()).unwrap_or_default()).collect();
+            for f in o.fields.iter_mut() {
+                if !iface_field_names.contains(&f.name) {
+                    continue;
+                }
+                let ps = possible(f.ty.unwrapped());
+                if !ps.is_empty() && rng.chance(1, 3) {
+                    let pick = ps[rng.below(ps.len())].clone();
+                    f.ty = replace_named(&f.ty, &pick);
+                }
+            }
+        }
     }
     // custom directive definitions
     if cfg.directives {
